@@ -25,7 +25,9 @@ def gparse (args : List String) : String × String :=
     let stopAt := stop.toNat?
     let src : Source := { chunks := cs, endErr := boolOf e, errWithLast := boolOf ewl }
     let evs (o : List Out) := o.filter fun x => match x with | .event _ => true | _ => false
-    let wait (o : List Out) := if conn then toString (retryInterval parseInitialInterval o) else "-"
+    -- (`:w`: the connection's initial interval is 1 ms + 7 ns, so that the wait before the second attempt is short)
+    let base : Int := if cfg.endsWith ":w" then 1000007 else parseInitialInterval
+    let wait (o : List Out) := if conn then toString (retryInterval base o) else "-"
     let hand := implRun conn (unhex lid) src (parseCfg cfg) stopAt
     let hs := s!"{showOuts (evs hand.1)} | {showPErr hand.2.1} | - | {wait hand.1}"
     let p0 : Model.Parser := { sc := mkScanner src (parseCfg cfg) }
